@@ -300,6 +300,8 @@ func (t *Transport) RoundTrip(req *http.Request) (*http.Response, error) {
 		if dead {
 			return nil, errCrashed
 		}
+		// logged (a client-only operation must not even probe), but not counted as a fault position
+		t.C.Log.add(Event{Op: t.Ctx.ID, Layer: "kube", Verb: "GET", Key: "/version", Code: 200, Note: "probe"})
 		return jsonResp(req, 200, map[string]string{"major": "1", "minor": "32", "gitVersion": "v1.32.0"}), nil
 	}
 	coll, name, isObj := classify(p)
